@@ -8,6 +8,7 @@
    The Newton equation with the slack variable (newtonpf.py:693-698):  V conj(Ybus V) - Sbus + w_bus * slack = 0. *)
 From Coq Require Import String ZArith QArith Qabs List Bool.
 From PPV Require Import Base.QN Base.QC Base.Out C01.Model.
+From PPV Require Base.C07Graph.
 Import ListNotations.
 Open Scope Q_scope.
 
@@ -75,6 +76,29 @@ Definition normalise_with (xpqf : list xwbr -> list nat)
 
 Definition normalise := normalise_with xward_pq_buses.
 Definition normalise_old := normalise_with xward_pq_buses_old.
+
+(* ---------- the island search: pandapower/auxiliary.py _subnetworks (:907-940).  The graph has one edge per ppc branch row
+   with BR_STATUS != 0 whose two end buses are not of type NONE (the adjacency matrix is masked by the out-of-service buses);
+   the search starts at every bus of type REF in BUS_I order, a reference bus that was already reached is skipped, and every
+   search returns the buses reachable over the edges in either direction (breadth_first_order, directed=False).
+   Base.C07Graph.components is exactly this loop (todo list = reference buses, acc = traversed islands); the order of the
+   buses inside an island differs from scipy's BFS order and is irrelevant for the normalisation (np.isin). *)
+Record pbr := mkPbr { pb_f : nat; pb_t : nat; pb_on : bool }.            (* F_BUS, T_BUS, BR_STATUS *)
+Definition BT_REF : nat := 3.
+Definition BT_NONE : nat := 4.
+Definition bus_is (bt : list nat) (t k : nat) : bool := Nat.eqb (nth k bt 1%nat) t.
+Definition island_arcs (brs : list pbr) (bt : list nat) : list (nat * nat) :=
+  map (fun r => (pb_f r, pb_t r))
+      (filter (fun r => pb_on r && negb (bus_is bt BT_NONE (pb_f r)) && negb (bus_is bt BT_NONE (pb_t r))) brs).
+Definition slack_buses (bt : list nat) : list nat := filter (bus_is bt BT_REF) (seq 0 (length bt)).
+Definition subnetworks (brs : list pbr) (bt : list nat) : list (list nat) :=
+  C07Graph.components Nat.eq_dec (island_arcs brs bt) (slack_buses bt).
+(* _normalise_slack_weights with its own island search (build_gen.py:429) *)
+Definition normalise_net (gens : list wsrc) (xws : list xwbr) (brs : list pbr) (bt : list nat) : nres :=
+  normalise gens xws (subnetworks brs bt) (length bt).
+(* every branch row points into the bus table (true of every ppc) *)
+Definition wf_branches (brs : list pbr) (bt : list nat) : bool :=
+  forallb (fun r => Nat.ltb (pb_f r) (length bt) && Nat.ltb (pb_t r) (length bt)) brs.
 
 (* guard of the OLD pairing: the weights of the xward aux gens (table order) met the bus of their own xward *)
 Definition G10w (xws : list xwbr) : bool :=
@@ -168,6 +192,10 @@ Definition run_normalise (gens : list wsrc) (xws : list xwbr) (subs : list (list
 Definition run_xward (n : net) (vs : list Q) (pd_after : list Q) (xws : list xwrow) : out :=
   OL (map oq (xward_p n vs (fun k => nth k pd_after 0) xws)).
 
+Definition run_normalise_net (gens : list wsrc) (xws : list xwbr) (brs : list pbr) (bt : list nat) : out :=
+  OL [onres (normalise_net gens xws brs bt) (length bt); OB (G10w xws);
+      olist (fun isl => olist onat (sort_unique isl)) (subnetworks brs bt); OB (wf_branches brs bt)].
+
 (* ---------- widening of the reference sets (run_newton_raphson_pf.py:77-90) and the gen / bus-PD stage *)
 Definition widen_ref (ref : list nat) (bw : list Q) : list nat :=
   sort_unique (ref ++ filter (fun k => negb (qeqb (nth k bw 0) 0)) (seq 0 (length bw))).      (* union1d *)
@@ -181,6 +209,12 @@ Definition run_ds_gens (n : net) (ref : list nat) (bw : list Q) (vs : list Q) (s
   OL [ OL (map (fun g => oq (pg_after n' ref' g (vof vs (g_bus g)) (sof ss (g_bus g)))) (gens n'));
        OL (map (fun k => oq (PD_after n' ref' k (sof ss k))) (seq 0 nb));
        olist onat ref' ].
+
+(* without distributed slack (the bypass of powerflow.py:158-161 on nets whose buses are all reference buses calls pfsoln with
+   the setpoint voltages): no widening of the reference sets *)
+Definition run_plain_gens (n : net) (ref : list nat) (vs : list Q) (ss : list C) (nb : nat) : out :=
+  OL [ OL (map (fun g => oq (pg_after n ref g (vof vs (g_bus g)) (sof ss (g_bus g)))) (gens n));
+       OL (map (fun k => oq (PD_after n ref k (sof ss k))) (seq 0 nb)) ].
 
 (* ---------- enforce_q_lims around the distributed slack power flow: after "fix: enforce_q_lims keeps the distributed slack
    share of xwards" the bus PD handed to the result extraction is PD_after (only QD is restored after the loop).  Before, with at
